@@ -3,8 +3,9 @@ CONSTANTS
   MinN = 5
   MaxN = 6
   TypeIds = {1, 2, 3, 4, 11}
+  RunAlgos = {"bnb", "cg"}
   WCross = FALSE
 INIT Init
 NEXT Next
-INVARIANTS TypeOK OptimumExists OptimaAgree NonOptimaWorse OptPcWeaker OptPcSameWithoutCap Admitted BnBIsChangeless AmountIsEffective CGCoversReserve EmitRow
+INVARIANTS TypeOK OptimumExists OptimaAgree NonOptimaWorse OptPcWeaker OptPcSameWithoutCap Admitted BnBIsChangeless AmountIsEffective CGCoversReserve RunEnds AsCodedCG AsCodedBnB AsCodedValid EmitRow
 CHECK_DEADLOCK FALSE
